@@ -45,6 +45,16 @@ class Bound(Exception):
     pass
 
 
+_INT = re.compile(r'^(-?\d+)_([iu](?:8|16|32|64|128|size))$')
+
+
+def const_int(txt):
+    m = _INT.match(txt or '')
+    if m:
+        return int(m.group(1)), m.group(2)
+    return None
+
+
 def freeze(st):
     return tuple(sorted(st.items()))
 
@@ -203,6 +213,12 @@ class Interp:
 
     def eval_op(self, st, op):
         if op[0] == 'k':
+            c = self.facts.consts.get(op[1])
+            if c is not None and c.get('value') and c.get('ty') in ('u8', 'u16', 'u32', 'u64', 'usize', 'i8', 'i16', 'i32', 'i64', 'isize'):
+                try:
+                    return ('c', '%d_%s' % (int(c['value'], 16), c['ty']))
+                except ValueError:
+                    pass
             return ('c', op[1])
         pl = self.norm(st, op[1])
         v = self.get(st, pl)
@@ -300,12 +316,32 @@ class Interp:
                 val = ('isnonempty', a[1])
             elif a and a[0] == 'isnonempty':
                 val = ('isempty', a[1])
-        elif r == 'bin' and rv['op'] in ('Eq', 'Ne'):
+        elif r == 'bin' and rv['op'] in ('Eq', 'Ne', 'Lt', 'Le', 'Gt', 'Ge', 'Add', 'Sub', 'AddWithOverflow', 'SubWithOverflow'):
             a = self.eval_op(st, rv['a'])
             b = self.eval_op(st, rv['b'])
             if a and b and a[0] == 'c' and b[0] == 'c':
-                eq = (a[1] == b[1])
-                val = ('c', 'true' if (eq == (rv['op'] == 'Eq')) else 'false')
+                ia, ib = const_int(a[1]), const_int(b[1])
+                op_ = rv['op']
+                if ia and ib and ia[1] == ib[1] and -(1 << 63) < ia[0] < (1 << 63) and abs(ia[0]) < 4096 and abs(ib[0]) < 4096:
+                    # small literal counters only (a finite state machine such as a retry counter); the bound keeps the
+                    # state space finite: larger values become unknown
+                    x, y, ty = ia[0], ib[0], ia[1]
+                    if op_ in ('Eq', 'Ne', 'Lt', 'Le', 'Gt', 'Ge'):
+                        res = {'Eq': x == y, 'Ne': x != y, 'Lt': x < y, 'Le': x <= y, 'Gt': x > y, 'Ge': x >= y}[op_]
+                        val = ('c', 'true' if res else 'false')
+                    else:
+                        z = x + y if op_.startswith('Add') else x - y
+                        if 0 <= z < 64:
+                            if op_.endswith('WithOverflow'):
+                                dst = self.set(st, s['lhs'], None)
+                                if self.trackable(dst):
+                                    st[pkey(dst + [['f', 0, '0']])] = ('c', '%d_%s' % (z, ty))
+                                    st[pkey(dst + [['f', 1, '1']])] = ('c', 'false')
+                                return
+                            val = ('c', '%d_%s' % (z, ty))
+                elif op_ in ('Eq', 'Ne'):
+                    eq = (a[1] == b[1])
+                    val = ('c', 'true' if (eq == (op_ == 'Eq')) else 'false')
         self.set(st, s['lhs'], val)
 
     def mut_capture(self, st, pl, closure_def):
